@@ -399,6 +399,36 @@ theorem fire_flushes_pending (c : Cfg) (s : State) (ha : s.timerArmed = true)
   unfold fire callback clearPending
   by_cases hq : s.queue.length < c.cap <;> simp [ha, hc, hl, hq]
 
+/-- the websocket frames the write pump puts on the wire: one per dequeued batch -/
+def frames (outs : List Out) : List Bytes := (received outs).map writeFrame
+
+/-- **C32 (on the wire)** the frames written by the write pump are exactly the dequeued
+batches, one frame per batch in order; hence every frame is at most `maxSize` bytes and decodes
+to the messages of the flush it came from.  (The pump itself is a one-line model; that the
+real `writePump` writes one frame per batch is *tied* by the oracle-only harness
+`TestVerifC32Pump` against a real websocket peer, not proved about gorilla/websocket.) -/
+theorem frames_eq_batches (c : Cfg) (hmax : c.maxSize < 2 ^ 64) (ops : List Op) :
+    frames (run c init ops).2 = received (run c init ops).2 ∧
+    ∀ fr ∈ frames (run c init ops).2,
+      fr.length ≤ c.maxSize ∧
+      ∃ f ∈ flushes (run c init ops).2, f.delivered = true ∧ fr = f.bytes ∧
+        decodeBatch fr = some f.msgs := by
+  have hfr : frames (run c init ops).2 = received (run c init ops).2 := by
+    unfold frames
+    have : writeFrame = id := by funext b; rfl
+    rw [this, List.map_id]
+  refine ⟨hfr, ?_⟩
+  intro fr hmem
+  rw [hfr] at hmem
+  have hin : fr ∈ ((flushes (run c init ops).2).filter (·.delivered)).map (·.bytes) := by
+    rw [← delivered_in_flush_order]
+    exact List.mem_append_left _ hmem
+  obtain ⟨f, hf, hb⟩ := List.mem_map.mp hin
+  obtain ⟨hfm, hdel⟩ := List.mem_filter.mp hf
+  subst hb
+  exact ⟨(batch_size_le_max c ops f hfm).2, f, hfm, hdel, rfl,
+    batch_decodes_to_messages c hmax ops f hfm⟩
+
 /-- nothing stays pending after `Close` -/
 theorem closed_nothing_pending (c : Cfg) (ops : List Op)
     (h : (run c init ops).1.closed = true) : (run c init ops).1.pending = [] :=
